@@ -77,6 +77,27 @@ def sig_source(sig: List[dict], body: str, isasync: bool = False) -> str:
     return "{}def f({}):\n    {}\n".format("async " if isasync else "", ", ".join(parts), body)
 
 
+_SHARED = {}  # type: Dict[int, Any]
+_UNSET = object()
+
+
+def shared_require(ic: Any) -> Any:
+    """ONE precondition decorator object applied to the functions of ALL signatures (its condition takes every parameter
+    name with a default): what it receives for a call is a matter of that call's function only."""
+    if id(ic) not in _SHARED:
+        sink = {"h": None}  # type: Dict[str, Any]
+
+        def shared_cond(p1: Any = _UNSET, p2: Any = _UNSET, p3: Any = _UNSET, p4: Any = _UNSET, p5: Any = _UNSET,
+                        p6: Any = _UNSET, p7: Any = _UNSET) -> bool:
+            for i, v in enumerate((p1, p2, p3, p4, p5, p6, p7), 1):
+                if v is not _UNSET:
+                    sink["h"].seen[("shared", i)] = v
+            return True
+
+        _SHARED[id(ic)] = (ic.require(shared_cond), sink)
+    return _SHARED[id(ic)]
+
+
 class SigHarness:
     """One decorated function per signature; every contract role records what it receives."""
 
@@ -121,6 +142,8 @@ class SigHarness:
         # the same parameters asked for through KEYWORD-ONLY parameters of the condition
         for i in named:
             f1 = ic.require(eval("lambda *, p{0}: H.rec('prekw', {0}, p{0})".format(i), ns))(f1)
+        shared_deco, self._shared_sink = shared_require(ic)
+        f1 = shared_deco(f1)
         f1 = ic.require(lambda _ARGS: rec("pre", "_ARGS", _ARGS))(f1)
         f1 = ic.require(lambda _KWARGS: rec("pre", "_KWARGS", _KWARGS))(f1)
         self.f1 = f1
@@ -165,6 +188,7 @@ class SigHarness:
     def call(self, f: Any, npos: int, kws: List[int]) -> Tuple[Any, Any, Any]:
         self.seen = {}
         self.body_locals = None
+        self._shared_sink["h"] = self
         pos = tuple(S("P{}".format(j)) for j in range(1, npos + 1))
         kw = {("p{}".format(k) if k else "zz"): S("K{}".format(k)) for k in kws}
         try:
@@ -257,7 +281,7 @@ def _replay_vectors(res: Any, vectors: List[dict], ic: Any) -> Dict[str, int]:
                 if got_body is not want:
                     raise MachineryError("spec Bind disagrees with CPython for {} npos={} kws={} param {}".format(
                         head, npos, kws, i))
-                for role in ("pre", "prekw", "predef", "cap", "capdef", "post", "old"):
+                for role in ("pre", "prekw", "predef", "shared", "cap", "capdef", "post", "old"):
                     stats["values_compared"] += 1
                     got = seen.get((role, i), "<not evaluated>")
                     if got is not want:
